@@ -649,6 +649,20 @@ pub fn big_root(name: &str) -> Vec<Action> {
         "synced-with-top-tombstone" => vec![w(Call::Set, 0, 3), w(Call::Set, 1, 3), w(Call::Set, 2, 1), w(Call::Delete, 2, 0), hs(0, 1), hs(0, 1)],
         // same, and the owner has collected the tombstone (its watermark equals node 1's max version)
         "owner-collected-top-tombstone" => vec![w(Call::Set, 0, 3), w(Call::Set, 1, 3), w(Call::Set, 2, 1), w(Call::Delete, 2, 0), hs(0, 1), hs(0, 1), Action::Tick, Action::Gc { node: 0 }],
+        // three parties: node 1 follows the owner closely, node 2 is one deletion and one write behind
+        // (owner: a, b 40 KB each, c deleted at v4, d at v5; node 1 at v5; node 2 at v3)
+        "stale-peer-behind-a-deletion" => vec![
+            w(Call::Set, 0, 3),
+            w(Call::Set, 1, 3),
+            w(Call::Set, 2, 1),
+            hs(0, 1),
+            hs(0, 1),
+            hs(0, 2),
+            hs(0, 2),
+            w(Call::Delete, 2, 0),
+            w(Call::Set, 3, 1),
+            hs(0, 1),
+        ],
         // node 1 holds a truncated copy (first 40 KB value only)
         "truncated-copy" => vec![w(Call::Set, 0, 3), w(Call::Set, 1, 3), w(Call::Set, 2, 1), hs(0, 1)],
         _ => vec![],
@@ -664,6 +678,11 @@ pub fn plans(props: &[&'static str], tier: Tier) -> Vec<Plan> {
     let small4 = || Arc::new(Cfg::simple(4, false, props));
     let big3 = || Arc::new(Cfg::simple(3, true, props));
     let big2 = || Arc::new(Cfg::simple(2, true, props));
+    let small3_mapped = || {
+        let mut c = Cfg::simple(3, false, props);
+        c.mapped_addr_nodes = vec![0];
+        Arc::new(c)
+    };
     let cap = tier.pick(2_000_000, 5_000_000);
     let p = |cfg: Arc<Cfg>, bounds: Bounds, secs: u64| Plan { cfg, bounds, secs, prefix: vec![] };
     let pr = |cfg: Arc<Cfg>, bounds: Bounds, secs: u64, root: &str| Plan { cfg, bounds: Bounds { name: format!("{}@{}", bounds.name, root), ..bounds }, secs, prefix: big_root(root) };
@@ -679,6 +698,9 @@ pub fn plans(props: &[&'static str], tier: Tier) -> Vec<Plan> {
             p(small3(), mk("hs-3nodes-small-values", true, &[0], &all, 3, &[1, 2], [3, 0, 0, 2, 1, 4, 0], cap), 15),
             pr(big3(), mk("hs-3nodes-big-values", true, &[0], &three, 3, &[1, 3], [1, 0, 0, 1, 1, 2, 0], cap), 8, "owner-collected-top-tombstone"),
             pr(big3(), mk("hs-3nodes-big-values", true, &[0], &three, 3, &[1, 3], [1, 0, 0, 1, 1, 3, 0], cap), 8, "truncated-copy"),
+            pr(big3(), mk("msg-3nodes-big-values", false, &[0], &three, 4, &[1, 3], [0, 2, 0, 1, 1, 0, 0], cap), 12, "stale-peer-behind-a-deletion"),
+            p(small2(), mk("hs-2nodes-restart", true, &[0], &[Call::Set, Call::Delete], 2, &[1], [2, 0, 0, 0, 0, 3, 1], cap), 8),
+            p(small3_mapped(), mk("hs-3nodes-owner-on-ipv4-mapped-address", true, &[0], &[Call::Set, Call::Delete], 2, &[1], [2, 0, 0, 0, 0, 3, 0], cap), 8),
         ],
         Tier::Thorough => vec![
             // message granularity
@@ -696,6 +718,9 @@ pub fn plans(props: &[&'static str], tier: Tier) -> Vec<Plan> {
             pr(big3(), mk("hs-3nodes-big-values", true, &[0], &three, 3, &[1, 3], [2, 0, 0, 1, 1, 4, 0], cap), 240, "synced-with-top-tombstone"),
             pr(big3(), mk("hs-3nodes-big-values", true, &[0], &three, 3, &[1, 3], [2, 0, 0, 1, 1, 4, 0], cap), 240, "owner-collected-top-tombstone"),
             pr(big3(), mk("hs-3nodes-big-values", true, &[0], &three, 3, &[1, 3], [2, 0, 0, 2, 1, 4, 0], cap), 240, "truncated-copy"),
+            pr(big3(), mk("msg-3nodes-big-values", false, &[0], &three, 4, &[1, 3], [1, 2, 1, 1, 1, 0, 0], cap), 300, "stale-peer-behind-a-deletion"),
+            p(small3(), mk("hs-3nodes-restart", true, &[0], &three, 2, &[1, 2], [3, 0, 0, 1, 1, 4, 1], cap), 240),
+            p(small3_mapped(), mk("hs-3nodes-owner-on-ipv4-mapped-address", true, &[0], &three, 2, &[1, 2], [3, 0, 0, 1, 1, 4, 0], cap), 200),
             // handshake granularity, small values
             p(small3(), mk("hs-3nodes-small-values", true, &[0], &all, 3, &[1, 2], [4, 0, 0, 2, 1, 5, 0], cap), 300),
             p(small3(), mk("hs-3nodes-small-values-2writers", true, &[0, 1], &all, 2, &[1, 2], [4, 0, 0, 2, 1, 5, 0], cap), 300),
